@@ -132,7 +132,7 @@ Proof.
   rewrite (H x (or_introl eq_refl)), IH by (intros y Hy; apply H; right; exact Hy). reflexivity.
 Qed.
 
-Definition no_spelling_class (c : cmd) : Prop := kf_bare_window c = false.
+Definition no_spelling_class (c : cmd) : Prop := kf_bare_window c = false /\ kf_pattern c = false.
 
 Lemma existsb_false_In {A} (f : A -> bool) l x : existsb f l = false -> In x l -> f x = false.
 Proof. intros H Hin. destruct (f x) eqn:E; [|reflexivity]. rewrite <- H. symmetry. apply existsb_exists. eauto. Qed.
@@ -140,24 +140,33 @@ Proof. intros H Hin. destruct (f x) eqn:E; [|reflexivity]. rewrite <- H. symmetr
 Lemma param_kinds (c : cmd) (p : param) :
   cmd_dom c = true -> no_spelling_class c -> In p (c_params c) -> kinds_agree (p_ty p).
 Proof.
-  intros Hd Hw Hin. unfold cmd_dom in Hd. apply andb_true_iff in Hd as [_ Hd].
+  intros Hd [Hw _] Hin. unfold cmd_dom in Hd. apply andb_true_iff in Hd as [_ Hd].
   pose proof (proj1 (forallb_forall _ _) Hd p Hin) as Hp. apply andb_true_iff in Hp as [_ Hp].
   apply kinds_ok; auto.
   apply (existsb_false_In _ _ p Hw Hin).
 Qed.
+Lemma param_bound (c : cmd) (p : param) :
+  no_spelling_class c -> In p (c_params c) -> bound p = true \/ spec_kind (p_ty p) = KInjected.
+Proof.
+  intros [_ Hp] Hin. pose proof (existsb_false_In _ _ p Hp Hin) as H. cbn beta in H.
+  destruct (bound p); [left; reflexivity|right]. cbn [negb andb] in H. unfold named_by_tauri in H.
+  destruct (spec_kind (p_ty p)); [reflexivity|discriminate|discriminate].
+Qed.
+Lemma spec_pname_bound p : bound p = true -> spec_pname p = p_name p.
+Proof. unfold bound, spec_pname. destruct (p_pat p); [reflexivity|discriminate|discriminate]. Qed.
 
 (* the key the generator gives to a parameter Tauri names = the key Tauri gives *)
 Lemma key_ok (cf : cfg) (c : cmd) (p : param) :
   cmd_dom c = true -> kf_macro_case cf c = false -> kf_underscore_name cf c = false ->
-  In p (c_params c) -> named_by_tauri p = true ->
+  In p (c_params c) -> named_by_tauri p = true -> bound p = true ->
   param_key cf (p_name p) = Ok (spec_key cf c (p_name p)).
 Proof.
-  intros Hd Hm Hu Hin Hn. unfold param_key.
+  intros Hd Hm Hu Hin Hn Hb. unfold param_key.
   unfold cmd_dom in Hd. apply andb_true_iff in Hd as [_ Hd].
   pose proof (proj1 (forallb_forall _ _) Hd p Hin) as Hp. apply andb_true_iff in Hp as [Hp _].
   unfold snake_name in Hp. apply andb_true_iff in Hp as [Hs _].
   (* same key under the command attribute's case and under the configured one *)
-  pose proof (existsb_false_In _ _ p Hm Hin) as H. cbn beta in H. rewrite Hn in H. cbn [andb] in H.
+  pose proof (existsb_false_In _ _ p Hm Hin) as H. cbn beta in H. rewrite Hn, (spec_pname_bound p Hb) in H. cbn [andb] in H.
   apply negb_false_iff in H. apply str_eqb_eq in H. rewrite H.
   apply rule_agrees; auto.
   intros Hc. unfold kf_underscore_name in Hu. rewrite Hc in Hu. cbn [rule_eqb andb] in Hu.
@@ -177,15 +186,14 @@ Proof.
   intros Hd Hs Hm Hu. unfold analyse.
   cbn [apply_rule].
   rewrite (mapO_ok (value_entry cf) (value_spec cf c)).
-  2:{ intros p Hin. apply filter_In in Hin as [Hin Hv]. apply negb_true_iff in Hv.
+  2:{ intros p Hin. apply filter_In in Hin as [Hin Hv]. apply andb_true_iff in Hv as [Hb Hv]. apply negb_true_iff in Hv.
       pose proof (param_kinds c p Hd Hs Hin) as Hk. unfold kinds_agree in Hk.
-      unfold value_entry, value_spec. rewrite (key_ok cf c p Hd Hm Hu Hin).
-      - reflexivity.
-      - unfold named_by_tauri. destruct (spec_kind (p_ty p)); [destruct Hk; congruence|reflexivity|reflexivity]. }
+      unfold value_entry, value_spec. rewrite (key_ok cf c p Hd Hm Hu Hin); [reflexivity| |exact Hb].
+      unfold named_by_tauri. destruct (spec_kind (p_ty p)); [destruct Hk; congruence|reflexivity|reflexivity]. }
   rewrite (mapO_ok (fun p => param_key cf (p_name p)) (chan_spec cf c)).
-  2:{ intros p Hin. apply filter_In in Hin as [Hin Hv].
+  2:{ intros p Hin. apply filter_In in Hin as [Hin Hv]. apply andb_true_iff in Hv as [Hb Hv].
       pose proof (param_kinds c p Hd Hs Hin) as Hk. unfold kinds_agree in Hk.
-      unfold chan_spec. apply (key_ok cf c p Hd Hm Hu Hin).
+      unfold chan_spec. apply (key_ok cf c p Hd Hm Hu Hin); [|exact Hb].
       unfold named_by_tauri. destruct (spec_kind (p_ty p)); [destruct Hk; congruence|reflexivity|reflexivity]. }
   reflexivity.
 Qed.
@@ -213,7 +221,12 @@ Lemma entries_perm (cf : cfg) (c : cmd) :
 Proof.
   intros Hd Hs. unfold chan_members. rewrite map_map. unfold value_params, chan_params, spec_keys.
   apply split_perm. intros p Hin. pose proof (param_kinds c p Hd Hs Hin) as Hk. unfold kinds_agree in Hk.
-  unfold spec_entry, value_spec, chan_spec. destruct (spec_kind (p_ty p)); destruct Hk as [Hi Hc]; rewrite Hi, Hc; cbn [negb]; auto.
+  pose proof (param_bound c p Hs Hin) as Hb.
+  unfold spec_entry, value_spec, chan_spec. destruct (spec_kind (p_ty p)); destruct Hk as [Hi Hc]; rewrite Hi, Hc; cbn [negb];
+    rewrite ?andb_false_r.
+  - right; right; auto.
+  - destruct Hb as [Hb|Hb]; [|discriminate]. rewrite Hb, (spec_pname_bound p Hb). cbn [andb]. right; left; auto.
+  - destruct Hb as [Hb|Hb]; [|discriminate]. rewrite Hb, (spec_pname_bound p Hb). cbn [andb]. left; auto.
 Qed.
 
 Definition outside_classes (cf : cfg) (c : cmd) : Prop := kf_any cf c = false.
@@ -256,11 +269,14 @@ Lemma filter_flat_values (cf : cfg) (c : cmd) :
 Proof.
   intros Hd Hs. unfold value_params, chan_params, spec_value_keys, spec_chan_keys.
   assert (H : forall p, In p (c_params c) -> kinds_agree (p_ty p)) by (intros p Hin; apply (param_kinds c p Hd Hs Hin)).
+  assert (HB : forall p, In p (c_params c) -> bound p = true \/ spec_kind (p_ty p) = KInjected) by (intros p Hin; apply (param_bound c p Hs Hin)).
   induction (c_params c) as [|p l IH]; [split; reflexivity|].
-  destruct IH as [IH1 IH2]; [intros q Hq; apply H; right; exact Hq|].
+  destruct IH as [IH1 IH2]; [intros q Hq; apply H; right; exact Hq|intros q Hq; apply HB; right; exact Hq|].
   pose proof (H p (or_introl eq_refl)) as Hk. unfold kinds_agree in Hk.
-  cbn [filter flat_map]. destruct (spec_kind (p_ty p)); destruct Hk as [Hi Hc]; rewrite Hi, Hc; cbn [negb map app fst value_spec];
-    rewrite ?IH1, ?IH2; split; reflexivity.
+  pose proof (HB p (or_introl eq_refl)) as Hb.
+  cbn [filter flat_map]. destruct (spec_kind (p_ty p)); destruct Hk as [Hi Hc]; rewrite Hi, Hc; cbn [negb];
+    rewrite ?andb_false_r; [|destruct Hb as [Hb|Hb]; [rewrite Hb, (spec_pname_bound p Hb)|discriminate]..];
+    cbn [andb map app fst value_spec chan_spec]; rewrite ?IH1, ?IH2; split; reflexivity.
 Qed.
 
 Theorem zod_split_thm (cf : cfg) (c : cmd) :
@@ -297,7 +313,7 @@ Qed.
 
 (* ---------- witnesses: inside each class the faithful model violates the property ---------- *)
 Definition T (s : string) : str := L s.
-Definition mkp (n : string) (t : aty) : param := {| p_name := L n; p_ty := t |}.
+Definition mkp (n : string) (t : aty) : param := {| p_name := L n; p_ty := t; p_pat := PatIdent |}.
 Definition plain_t (n : ntag) : aty := APath [] n None.
 Definition cfg_default : cfg := {| default_case := L "camelCase" |}.
 Definition bad (cf : cfg) (m : mode) (c : cmd) : bool :=
@@ -318,8 +334,8 @@ Definition w_underscore : cmd := {| c_name := L "odd_name"; c_macro_case := None
   c_params := [mkp "__" (plain_t NOther); mkp "user_id" (plain_t NOther)] |}.
 
 Definition only_class (i : nat) (cf : cfg) (c : cmd) : bool :=
-  let l := [kf_bare_window c; kf_macro_case cf c; kf_underscore_name cf c] in
-  forallb (fun jb => Bool.eqb (snd jb) (Nat.eqb (fst jb) i)) (combine (seq 0 3) l).
+  let l := [kf_bare_window c; kf_macro_case cf c; kf_underscore_name cf c; kf_pattern c] in
+  forallb (fun jb => Bool.eqb (snd jb) (Nat.eqb (fst jb) i)) (combine (seq 0 4) l).
 Definition good (cf : cfg) (m : mode) (c : cmd) : bool :=
   match generate cf m c with
   | Panic => false
@@ -341,6 +357,20 @@ Lemma refuted_underscore_name :
   spec_keys cfg_default w_underscore = [([], false); (L "userId", false)] /\
   option_map kb_of (match generate cfg_default Plain w_underscore with Ok g => invoke_keys g | Panic => None end)
     = Some [(L "__", false); (L "userId", false)].
+Proof. vm_compute. repeat split; reflexivity. Qed.
+
+(* a value parameter bound by a destructuring pattern, and a channel bound by the wildcard, get no key at all *)
+Definition w_pattern : cmd := {| c_name := L "move_to"; c_macro_case := None;
+  c_params := [ {| p_name := L "point"; p_ty := plain_t NOther; p_pat := PatDestructure |};
+                {| p_name := L "w"; p_ty := APath [] NChannel (Some [GType]); p_pat := PatWild |};
+                {| p_name := L "w"; p_ty := APath [] NAppHandle None; p_pat := PatWild |};
+                mkp "speed" (plain_t NOther) ] |}.
+Lemma refuted_pattern :
+  cmd_dom w_pattern = true /\ only_class 3 cfg_default w_pattern = true /\
+  bad cfg_default Plain w_pattern = true /\ bad cfg_default Zod w_pattern = true /\
+  spec_keys cfg_default w_pattern = [(L "point", false); ([], false); (L "speed", false)] /\
+  option_map kb_of (match generate cfg_default Plain w_pattern with Ok g => invoke_keys g | Panic => None end)
+    = Some [(L "speed", false)].
 Proof. vm_compute. repeat split; reflexivity. Qed.
 
 (* repaired: the former witnesses of C04-2 (ipc::Channel) and of the panic half of C04-5 *)
